@@ -61,6 +61,7 @@ fn replay(input: &str, output: &str, style: IdStyle) -> std::io::Result<()> {
             continue;
         }
         let ops: Vec<Op> = serde_json::from_str(line).expect("harness: behaviour line");
+        project::reset_sha_table();
         let mut ctx = Ctx { store: new_store(), style, extra: serde_json::json!({"has": false}), dir: None };
         let mut rcfg = store_config().1;
         rcfg["style"] = serde_json::json!(style.0);
